@@ -343,6 +343,22 @@ func (ex *Exec) havocLoop(st *State, fr *Frame, ld *loopDesc) {
 					classes[mapClass(x.Map.Type())] = true
 				case ssa.CallInstruction:
 					cc := x.Common()
+					// ghost recorders attached to this call change in the loop
+					if tsp := ex.Specs.Funcs[specName(fr.Fn)]; tsp != nil && fn == fr.Fn {
+						cname := ""
+						if cc.IsInvoke() {
+							cname = typeName(cc.Value.Type()) + "." + cc.Method.Name()
+						} else if f := cc.StaticCallee(); f != nil {
+							cname = specName(f)
+						}
+						for _, gs := range tsp.GhostSets {
+							if gs.Callee == cname {
+								for _, n := range gs.Names {
+									classes["G:$"+n] = true
+								}
+							}
+						}
+					}
 					if cc.IsInvoke() {
 						key := typeName(cc.Value.Type()) + "." + cc.Method.Name()
 						if sp, ok := ex.Specs.Ifaces[key]; ok && sp.ModNone {
